@@ -138,6 +138,9 @@ pub assume_specification<'a, T>[<&'a mut [T] as IntoIterator>::into_iter](s: &'a
 pub assume_specification<T: Copy>[Option::<&T>::copied](o: Option<&T>) -> (r: Option<T>)
     ensures o is None ==> r is None, o is Some ==> r == Some(*o->Some_0);
 
+pub assume_specification<T>[<[T]>::reverse](s: &mut [T])
+    ensures final(s)@ == old(s)@.reverse();
+
 // A destination that is both Write and Seek has ONE cursor, ONE content, one failure counter.
 pub uninterp spec fn ws_linked<T: Write + Seek>(t: &T) -> bool;
 pub broadcast axiom fn ax_ws_pos<T: Write + Seek>(t: &T)
